@@ -19,6 +19,7 @@
 // `Limb::wrapping_add(&self, rhs: Self)` vs `WrappingAdd::wrapping_add(&self, v: &Self)`.) Generic code
 // (`Wrapping<T>`, `Checked<T>`, `NonZero::new`) is verified against `T::m_req` / `T::m_ens`.
 use vstd::prelude::*;
+use vstd::arithmetic::div_mod::*;
 use crate::speclib::*;
 use crate::l1_choice::*;
 use crate::l1_limb::*;
@@ -297,6 +298,84 @@ pub trait WrappingNeg: Sized {
     fn wrapping_neg(&self) -> (r: Self)
         requires self.wrapping_neg_req()
         ensures self.wrapping_neg_ens(r);
+}
+
+// ------------------------------------------------------------------------------------------------
+// spec-level construction of a `Uint` / `Int` from its value (used to state vstd-level operator results `*_spec` where an
+// `ensures` cannot be attached to the impl method)
+// ------------------------------------------------------------------------------------------------
+
+/// the array whose first k limbs are the base-2^64 digits of x
+pub open spec fn digits_arr<const L: usize>(x: int, k: nat) -> [Limb; L]
+    decreases k
+{
+    if k == 0 { arbitrary() }
+    else { vstd::array::spec_array_update(digits_arr::<L>(x, (k - 1) as nat), k - 1, Limb(((x / bp((k - 1) as nat)) % B()) as u64)) }
+}
+/// the `Uint<L>` with value x (for 0 <= x < B^L)
+pub open spec fn uint_of<const L: usize>(x: int) -> Uint<L> { Uint { limbs: digits_arr::<L>(x, L as nat) } }
+
+pub proof fn lemma_digits<const L: usize>(x: int, k: nat)
+    requires x >= 0, k <= L
+    ensures val(digits_arr::<L>(x, k)@, k) == x % bp(k)
+    decreases k
+{
+    lemma_bp_succ(0);
+    if k == 0 {
+        assert(x % 1 == 0);
+    } else {
+        let j = (k - 1) as nat;
+        lemma_digits::<L>(x, j);
+        lemma_bp_succ(j);
+        let prev = digits_arr::<L>(x, j); let cur = digits_arr::<L>(x, k);
+        let d = (x / bp(j)) % B();
+        lemma_mod_bound(x / bp(j), B());
+        assert(cur@ == prev@.update(j as int, Limb(d as u64)));
+        lemma_val_ext(prev@, cur@, j);
+        assert(cur@[j as int].0 as int == d);
+        lemma_mod_breakdown(x, bp(j), B());
+        assert(bp(k) == bp(j) * B()) by (nonlinear_arith) requires bp(k) == B() * bp(j);
+        assert(d * bp(j) == bp(j) * d) by (nonlinear_arith);
+    }
+}
+
+pub proof fn lemma_uint_of<const L: usize>(x: int)
+    requires 0 <= x < bp(L as nat)
+    ensures uint_of::<L>(x).v() == x
+{
+    lemma_digits::<L>(x, L as nat);
+    lemma_small_mod(x as nat, bp(L as nat) as nat);
+}
+
+pub proof fn lemma_uint_eq<const L: usize>(a: Uint<L>, b: Uint<L>)
+    requires a.v() == b.v()
+    ensures a == b
+{
+    lemma_val_inj(a.limbs@, b.limbs@, L as nat);
+    assert(forall|k: int| 0 <= k < L ==> a.limbs@[k] == b.limbs@[k]);
+    assert(a.limbs =~= b.limbs);
+}
+
+/// the `Int<L>` with two's complement value x (for -W/2 <= x < W/2)
+pub open spec fn int_of<const L: usize>(x: int) -> Int<L> { Int(uint_of::<L>(x % bp(L as nat))) }
+
+pub proof fn lemma_int_of<const L: usize>(x: int)
+    requires L >= 1, in_range(x, L as nat)
+    ensures int_of::<L>(x).iv() == x
+{
+    lemma_half(L as nat);
+    lemma_mod_bound(x, bp(L as nat));
+    lemma_uint_of::<L>(x % bp(L as nat));
+    lemma_iv_from_mod(x % bp(L as nat), x, L as nat);
+}
+
+pub proof fn lemma_int_eq<const L: usize>(a: Int<L>, b: Int<L>)
+    requires L >= 1, a.iv() == b.iv()
+    ensures a == b
+{
+    lemma_val_bound(a.0.limbs@, L as nat); lemma_val_bound(b.0.limbs@, L as nat);
+    lemma_iv_bounds(a.0.v(), L as nat); lemma_iv_bounds(b.0.v(), L as nat);
+    lemma_uint_eq(a.0, b.0);
 }
 
 // ------------------------------------------------------------------------------------------------
